@@ -44,6 +44,12 @@ pub struct PsoCase {
     /// is r x domain width, independent of the update's v_max (the shipped `real_pso` uses v_max for both)
     #[serde(default)]
     pub vinit_rel: Option<f64>,
+    /// (generic assembly only) bit 0: a sampling phase (60 random points, evaluated, best-so-far updated) runs before a
+    /// fresh swarm is created, so a best-so-far individual that is not a particle exists when the swarm is initialised;
+    /// bit 1: a second linear schedule with the same bounds, driven by the same progress, for the inertia weight of
+    /// another (identifier A) velocity update runs right before the swarm's own schedule
+    #[serde(default)]
+    pub extras: u8,
 }
 
 type W = InertiaWeight<ParticleVelocitiesUpdate<Global>>;
@@ -61,6 +67,7 @@ struct A18 {
     history: Vec<Vec<(f64, u64)>>,
     last_pbest: Vec<f64>,
     swarm_ready: bool,
+    paired_linear: bool,
     clamped_steps: u32,
     pbest_improvements: u32,
     passes: u32,
@@ -178,6 +185,10 @@ impl Audit<RealP> for A18 {
                 }
             }
             "Linear" if ev.ok => {
+                if self.paired_linear && ev.len == 2 && ev.index == 0 {
+                    // the schedule of the other velocity update (first of the pair), not the swarm's
+                    return;
+                }
                 self.weight_updates += 1;
                 let progress = state.try_get_value::<Progress<ValueOf<Iterations>>>().unwrap_or(f64::NAN);
                 let want = (self.w1 - self.w0) * progress + self.w0;
@@ -242,7 +253,7 @@ impl Check for PsoCheck {
         "C18/pso-run".into()
     }
     fn classes(&self) -> &'static [&'static str] {
-        &["a velocity component was clamped", ">= 3 passes", "a personal best improved", "inertia only (c1 = c2 = 0)", "single particle", "v_max small relative to the domain", "initial velocities beyond the update's v_max"]
+        &["a velocity component was clamped", ">= 3 passes", "a personal best improved", "inertia only (c1 = c2 = 0)", "single particle", "v_max small relative to the domain", "initial velocities beyond the update's v_max", "a best-so-far individual that is not a particle exists before the swarm is created", "a second linear schedule with equal bounds runs right before the swarm's"]
     }
     fn oracle(&self, c: &PsoCase) -> Outcome {
         let mut cl = 0;
@@ -277,7 +288,14 @@ fn pso_oracle(c: &PsoCase, cl: &mut u64) -> Result<(), Failure> {
     if c.vmax_rel <= 0.01 {
         *cl |= 32;
     }
-    let audit = Arc::new(Mutex::new(A18 { vmax, c1: c.c1, c2: c.c2, w0: c.w0, w1: c.w1, ..Default::default() }));
+    let paired = c.vinit_rel.is_some() && c.extras & 2 != 0;
+    if c.vinit_rel.is_some() && c.extras & 1 != 0 {
+        *cl |= 128;
+    }
+    if paired {
+        *cl |= 256;
+    }
+    let audit = Arc::new(Mutex::new(A18 { vmax, c1: c.c1, c2: c.c2, w0: c.w0, w1: c.w1, paired_linear: paired, ..Default::default() }));
     let res = run_observed(&cfg, &problem, c.seed, EvalKind::Sequential, audit.clone());
     let a = audit.lock().unwrap();
     if a.clamped_steps > 0 {
@@ -304,11 +322,26 @@ fn pso_oracle(c: &PsoCase, cl: &mut u64) -> Result<(), Failure> {
 /// `real_pso` re-assembled from the generic `pso` template, with its own velocity range for the swarm initialisation.
 fn generic_pso(c: &PsoCase, v_init: f64, v_max: f64) -> mahf::ExecResult<mahf::Configuration<RealP>> {
     use mahf::{
-        components::{boundary, initialization, mapping, swarm},
+        components::{boundary, initialization, mapping, swarm, Block},
         conditions::LessThanN,
         heuristics::pso::{pso, Parameters},
+        identifier::A,
     };
-    Ok(mahf::Configuration::builder()
+    type WA = InertiaWeight<ParticleVelocitiesUpdate<A>>;
+    let own = mapping::Linear::new(c.w0, c.w1, ValueOf::<Progress<ValueOf<Iterations>>>::new(), ValueOf::<W>::new());
+    let schedule: Box<dyn Component<RealP>> = if c.extras & 2 != 0 {
+        Block::new(vec![mapping::Linear::new(c.w0, c.w1, ValueOf::<Progress<ValueOf<Iterations>>>::new(), ValueOf::<WA>::new()), own])
+    } else {
+        own
+    };
+    let mut b = mahf::Configuration::builder();
+    if c.extras & 1 != 0 {
+        b = b.do_(initialization::RandomSpread::new(60)).evaluate().update_best_individual();
+    }
+    if c.extras & 2 != 0 {
+        b = b.do_(Box::new(OtherWeight(c.w0)));
+    }
+    Ok(b
         .do_(initialization::RandomSpread::new(c.n))
         .evaluate()
         .update_best_individual()
@@ -317,12 +350,25 @@ fn generic_pso(c: &PsoCase, v_init: f64, v_max: f64) -> mahf::ExecResult<mahf::C
                 particle_init: swarm::pso::ParticleSwarmInit::new(v_init)?,
                 particle_update: swarm::pso::ParticleVelocitiesUpdate::new(c.w0, c.c1, c.c2, v_max)?,
                 constraints: boundary::Saturation::new(),
-                inertia_weight_update: Some(mapping::Linear::new(c.w0, c.w1, ValueOf::<Progress<ValueOf<Iterations>>>::new(), ValueOf::<W>::new())),
+                inertia_weight_update: Some(schedule),
                 state_update: swarm::pso::ParticleSwarmUpdate::new(),
             },
             LessThanN::iterations(c.iters),
         ))
         .build())
+}
+
+/// Registers the inertia weight of a second (identifier A) velocity update, as a second swarm in the same state would.
+#[derive(Clone, Serialize)]
+struct OtherWeight(f64);
+impl Component<RealP> for OtherWeight {
+    fn init(&self, _p: &RealP, state: &mut State<RealP>) -> mahf::ExecResult<()> {
+        state.insert(InertiaWeight::<ParticleVelocitiesUpdate<mahf::identifier::A>>::new(self.0));
+        Ok(())
+    }
+    fn execute(&self, _p: &RealP, _state: &mut State<RealP>) -> mahf::ExecResult<()> {
+        Ok(())
+    }
 }
 
 #[derive(Clone, Debug, Serialize, Deserialize)]
@@ -376,9 +422,9 @@ fn pso_strategy(max_iters: u32) -> impl Strategy<Value = PsoCase> {
         prop_oneof![2 => Just(RealKind::Sphere), 2 => Just(RealKind::Rastrigin), 2 => Just(RealKind::Slope), 2 => Just(RealKind::ShiftedOutside), 2 => Just(RealKind::Plateau), 3 => Just(RealKind::Infeasible)],
         prop_oneof![Just((-5.0, 5.0)), Just((0.0, 1.0)), Just((3.0, 7.0)), Just((-100.0, 100.0))],
         1u32..=max_iters,
-        (any::<u64>(), prop_oneof![3 => Just(None), 1 => prop_oneof![Just(0.001), Just(0.1), Just(1.0), Just(10.0), Just(50.0)].prop_map(Some)]),
+        (any::<u64>(), prop_oneof![3 => Just(None), 2 => prop_oneof![Just(0.001), Just(0.1), Just(1.0), Just(10.0), Just(50.0)].prop_map(Some)], 0u8..4),
     )
-        .prop_map(|(n, w0, w1, c1, c2, vmax_rel, dim, kind, (lo, hi), iters, (seed, vinit_rel))| PsoCase { n, w0, w1, c1, c2, vmax_rel, dim, kind, lo, hi, iters, seed, vinit_rel })
+        .prop_map(|(n, w0, w1, c1, c2, vmax_rel, dim, kind, (lo, hi), iters, (seed, vinit_rel, extras))| PsoCase { n, w0, w1, c1, c2, vmax_rel, dim, kind, lo, hi, iters, seed, vinit_rel, extras })
 }
 
 pub fn run_all(ctx: &mut Ctx, replay: Option<&Path>) {
